@@ -260,7 +260,7 @@ _add(
         "evaluations with their own data in context-local storage (diagonal log + own baseline); is_valid_expression under yielding evaluators "
         "must show the evaluators exactly the Cartesian product. distinct non-trivial = distinct expressions run under >= 2 distinct release orders"
     ),
-    deciding={"any": {"expressions": 100, "distinct_release_orders": 500, "runs_with_concurrently_parked_awaitables": 300, "exhaustively_enumerated_expressions": 5, "contract_multi:evaluate_conditions": 300, "contract_multi:evaluate_format_constraints": 50, "contract_multi:get_hints": 50, "contract_multi:gather_if_necessary": 100, "isolation_runs": 20, "isolation_events": 200, "validity_runs_with_concurrency": 10}},
+    deciding={"any": {"expressions": 100, "distinct_release_orders": 500, "runs_with_concurrently_parked_awaitables": 300, "exhaustively_enumerated_expressions": 5, "contract_multi:evaluate_conditions": 300, "contract_multi:evaluate_format_constraints": 50, "contract_multi:get_hints": 50, "contract_multi:gather_if_necessary": 100, "isolation_runs": 20, "isolation_events": 200, "validity_runs_with_concurrency": 10, "package_pairing_comparisons": 30}},
     headline=["expressions", "runs", "distinct_release_orders", "exhaustively_enumerated_expressions", "isolation_runs", "validity_runs"],
 )
 
@@ -278,7 +278,7 @@ _add(
         "NotImplementedError iff a visited MUSS/prefix node is UNKNOWN; validate_segment_level on a random sub-tree. distinct non-trivial = "
         "distinct (tree, assignment, flag) with depth >= 3 or pruning"
     ),
-    deciding={"any": {"trees": 100, "nodes_reported": 1500, "trees_with_pruning": 30, "runs_expecting_not_implemented": 3, "segment_level_calls": 50, "runs_with_concurrently_parked_awaitables": 50}},
+    deciding={"any": {"trees": 100, "nodes_reported": 1500, "trees_with_pruning": 30, "runs_expecting_not_implemented": 3, "segment_level_calls": 50, "runs_with_concurrently_parked_awaitables": 50, "sequence_runs": 50}},
     headline=["trees", "nodes_reported", "nodes_pruned", "runs_expecting_not_implemented", "segment_level_calls"],
 )
 
@@ -312,7 +312,7 @@ _add(
         "the element's result in the tree run == validate_data_element_freetext on the element alone with nothing yielding. distinct non-trivial = "
         "distinct (tree, assignment, schedule) with >= 2 elements' format constraints evaluated and >= 2 awaitables parked at once"
     ),
-    deciding={"any": {"trees": 100, "fc_events": 500, "trees_with_concurrent_elements": 50, "elements_compared_with_standalone": 300}},
+    deciding={"any": {"trees": 100, "fc_events": 500, "trees_with_concurrent_elements": 50, "elements_compared_with_standalone": 300, "trees_with_shared_keys": 20, "runs_with_stale_text_in_context": 50}},
     headline=["trees", "fc_events", "trees_with_concurrent_elements", "elements_compared_with_standalone"],
 )
 
